@@ -90,7 +90,9 @@ where
             .read_record(skip_wrong_record)
             .and_then(|record| preprocess_record(record, source_version))
         {
-            Ok(record) => {
+            Ok(mut record) => {
+                // Records that follow a skipped one land at a lower offset than in the source blob
+                record.header = record.header.with_blob_offset(writer.written())?;
                 writer.write_record(record)?;
                 count += 1;
             }
